@@ -1210,6 +1210,104 @@ fn deferred_transcript<V: VirtualFileSystem>(fs: &V, base: &str, chdir: &dyn Fn(
     t
 }
 
+/// Mode sweep: a file, a directory and a link to each; file and directory take every mode of `modes`;
+/// every Entry accessor of the wrapped backend entry against the same accessor of the VfsEntry around it,
+/// and vfs.mode / is_exec / is_readonly of the backend value against the same call through Vfs.
+/// (the state sweeps only reach the handful of modes their alphabets create)
+fn mode_sweep<V: VirtualFileSystem, W: VirtualFileSystem>(direct: &V, wrapped: &W, base: &str, modes: &[u32], world: &str, count: &mut u64) -> Vec<(String, String)> {
+    let mut out: Vec<(String, String)> = vec![];
+    let p = |n: &str| format!("{}/{}", base, n);
+    for fs_setup in [0, 1] {
+        // the two values are set up separately only when they do not share their state (Memfs)
+        let r = if fs_setup == 0 { setup_mode_tree(direct, base) } else if world == "memfs" { setup_mode_tree(wrapped, base) } else { Ok(()) };
+        if let Err(e) = r {
+            out.push((format!("{} mode sweep · machinery", world), e));
+            return out;
+        }
+    }
+    for &m in modes {
+        for n in ["f", "d"] {
+            let a = direct.chmod(p(n), m).map_err(|e| e.to_string());
+            let b = if world == "memfs" { wrapped.chmod(p(n), m).map_err(|e| e.to_string()) } else { Ok(()) };
+            if a.is_err() || b.is_err() {
+                out.push((format!("{} mode sweep · chmod failed", world), format!("chmod({}, {:o}): {:?} / {:?}", n, m, a, b)));
+            }
+        }
+        for n in ["f", "d", "lf", "ld"] {
+            let q = p(n);
+            // method level
+            let dm = (direct.mode(&q).map_err(|e| e.to_string()), direct.is_exec(&q), direct.is_readonly(&q));
+            let wm = (wrapped.mode(&q).map_err(|e| e.to_string()), wrapped.is_exec(&q), wrapped.is_readonly(&q));
+            *count += 3;
+            if dm != wm {
+                out.push((format!("{} mode sweep · mode/is_exec/is_readonly through Vfs differ from the backend value", world), format!("{} with file/dir mode {:o}: direct (mode, is_exec, is_readonly) = {:?}, through Vfs = {:?}", n, m, dm, wm)));
+            }
+            // entry level
+            let e = match direct.entry(&q) {
+                Ok(e) => e,
+                Err(e) => {
+                    out.push((format!("{} mode sweep · entry failed", world), format!("entry({}) with mode {:o}: {}", n, m, e)));
+                    continue;
+                },
+            };
+            let mut subjects = vec![e.clone()];
+            let f = e.clone().follow(true);
+            if f.following() {
+                subjects.push(f);
+            }
+            for sub in subjects {
+                let (inner, outer) = match &sub {
+                    VfsEntry::Memfs(x) => (accessors(x), accessors(&VfsEntry::Memfs(x.clone()))),
+                    VfsEntry::Stdfs(x) => (accessors(x), accessors(&VfsEntry::Stdfs(x.clone()))),
+                };
+                *count += ACCESSORS.len() as u64;
+                if let Some((i, x, y)) = compare_accessors(&inner, &outer) {
+                    out.push((
+                        format!("VfsEntry::{} {} · differs from the {}Entry accessor", if world == "memfs" { "Memfs" } else { "Stdfs" }, ACCESSORS[i], if world == "memfs" { "Memfs" } else { "Stdfs" }),
+                        format!("mode sweep: entry {} (following={}) with file/dir mode {:o}: inner {} -> {:?} ; VfsEntry {} -> {:?}", n, sub.following(), m, ACCESSORS[i], x, ACCESSORS[i], y),
+                    ));
+                }
+            }
+        }
+    }
+    // leave removable modes behind
+    for n in ["f", "d"] {
+        let _ = direct.chmod(p(n), 0o755);
+    }
+    out.sort();
+    out.dedup_by(|a, b| a.0 == b.0);
+    out
+}
+
+fn setup_mode_tree<V: VirtualFileSystem>(fs: &V, base: &str) -> Result<(), String> {
+    let p = |n: &str| format!("{}/{}", base, n);
+    fs.mkdir_p(base).map_err(|e| e.to_string())?;
+    fs.mkfile(p("f")).map_err(|e| e.to_string())?;
+    fs.mkdir_p(p("d")).map_err(|e| e.to_string())?;
+    fs.symlink(p("lf"), p("f")).map_err(|e| e.to_string())?;
+    fs.symlink(p("ld"), p("d")).map_err(|e| e.to_string())?;
+    Ok(())
+}
+
+fn sweep_modes(tier: Tier) -> Vec<u32> {
+    // quick: all 512 permission values; thorough: with every combination of the three special bits
+    (0..tier.pick(0o1000u32, 0o10000u32)).collect()
+}
+
+fn mode_sweep_memfs(tier: Tier) -> (Vec<(String, String)>, u64) {
+    let mut n = 0;
+    let f = mode_sweep(&Memfs::new(), &Vfs::Memfs(Memfs::new()), "/r", &sweep_modes(tier), "memfs", &mut n);
+    (f, n)
+}
+
+fn mode_sweep_stdfs(sb: &Sandbox, tier: Tier) -> (Vec<(String, String)>, u64) {
+    sb.reset();
+    let mut n = 0;
+    let f = mode_sweep(&Stdfs::new(), &Vfs::Stdfs(Stdfs::new()), &format!("{}/r", sb.root), &sweep_modes(tier), "stdfs", &mut n);
+    sb.reset();
+    (f, n)
+}
+
 fn deferred_memfs() -> Vec<(String, String)> {
     let mut out = vec![];
     let run = |form: &str| -> Vec<String> {
@@ -1264,6 +1362,13 @@ pub fn worker(w: &mut WorkerCtx) {
     if w.shard == 0 {
         for (sig, detail) in deferred_stdfs(&sb) {
             w.vio(&sig, || detail, || J::obj([("world", J::s("stdfs")), ("what", J::s("deferred-builders"))]));
+        }
+    }
+    if w.shard == 1 % w.nshards {
+        let (f, n) = mode_sweep_stdfs(&sb, w.tier);
+        w.count("mode_sweep_comparisons", n);
+        for (sig, detail) in f {
+            w.vio(&sig, || detail, || J::obj([("world", J::s("stdfs")), ("what", J::s("mode-sweep"))]));
         }
     }
     let trees = enum_trees(&tree_space(max_entries));
@@ -1321,6 +1426,10 @@ pub fn run(ctx: &Ctx) -> i32 {
     for (sig, detail) in deferred_memfs() {
         vio(&sig, || detail, || J::obj([("world", J::s("memfs")), ("what", J::s("deferred-builders"))]));
     }
+    let (mf, mode_sweep_n) = mode_sweep_memfs(ctx.tier);
+    for (sig, detail) in mf {
+        vio(&sig, || detail, || J::obj([("world", J::s("memfs")), ("what", J::s("mode-sweep"))]));
+    }
     let mut per_cfg = vec![];
     let (mut states, mut trans) = (0u64, 0u64);
     let mut all_fix = true;
@@ -1367,6 +1476,10 @@ pub fn run(ctx: &Ctx) -> i32 {
         eprintln!("machinery: {}", f);
     }
     if !g.failed.is_empty() {
+        return 2;
+    }
+    if g.c("mode_sweep_comparisons") == 0 {
+        eprintln!("machinery: the Stdfs mode sweep did not run");
         return 2;
     }
     if g.c("stdfs_machinery_failures") > 0 || g.c("stdfs_trees") == 0 {
@@ -1440,6 +1553,7 @@ pub fn run(ctx: &Ctx) -> i32 {
         ("stdfs_calls", J::i(g.c("stdfs_calls"))),
         ("stdfs_executions", J::i(g.c("stdfs_executions"))),
         ("stdfs_entries_compared", J::i(g.c("stdfs_entries"))),
+        ("mode_sweep", J::s(format!("file, directory and a link to each x {} modes x {{Memfs, Stdfs}}: {} comparisons (every accessor of the wrapped entry vs VfsEntry, mode/is_exec/is_readonly of the backend value vs through Vfs)", sweep_modes(ctx.tier).len(), mode_sweep_n + g.c("mode_sweep_comparisons")))),
         ("stdfs_accessor_comparisons", J::i(g.c("stdfs_accessor_comparisons"))),
         ("stdfs_config_dir_calls", J::i(g.c("stdfs_config_dir_calls"))),
         ("stdfs_config_dir_answered_some", J::i(g.c("stdfs_config_dir_some"))),
@@ -1469,6 +1583,23 @@ fn replay(ctx: &Ctx, p: &std::path::Path) -> i32 {
         if unsafe { libc::geteuid() } == 0 {
             let sb = Sandbox::new("c13r.deferred");
             f.extend(deferred_stdfs(&sb));
+            let _ = std::env::set_current_dir("/");
+        }
+        for (sig, detail) in &f {
+            println!("  {}: {}", sig, detail);
+        }
+        if f.is_empty() {
+            println!("holds on this case");
+            return 0;
+        }
+        println!("VIOLATION property={} replay={}", ctx.prop, p.display());
+        return 1;
+    }
+    if case.get("what").and_then(|x| x.as_str()) == Some("mode-sweep") {
+        let (mut f, _) = mode_sweep_memfs(ctx.tier);
+        if unsafe { libc::geteuid() } == 0 {
+            let sb = Sandbox::new("c13r.modes");
+            f.extend(mode_sweep_stdfs(&sb, ctx.tier).0);
             let _ = std::env::set_current_dir("/");
         }
         for (sig, detail) in &f {
